@@ -41,6 +41,7 @@ def gen_case(r, idx, tmpdir):
             else: s.update(debug=True, cfg_ok=True, flush=0)
         runs = s["cfg_ok"] and (s["debug"] or s["answering"])
         s["runs"] = runs
+        if runs and r.chance(1, 4): s["partial"] = r.choice(["fe0500", "fe", "fe05000183", "fefd", "fe06010005a0"])
         if runs and s["flush"] == 0 and r.chance(2, 3): s["capprobe"] = True
         if runs and not s["debug"]:
             # activity: answered commands (state populated), unread uplink messages, optionally deferred messages
@@ -73,6 +74,7 @@ def script_of(case):
         if s["act"]: L += ["mark act%d" % k] + s["act"]
         if s["capprobe"]: L += ["mark cap%d" % k, "capprobe"]
         if s.get("pending"): L += ["mark pend%d" % k, s["pending"][3]]
+        if s.get("partial"): L += ["rxnowait " + s["partial"]]      # the bus falls silent in the middle of a packet; the stop must still return
         L += ["mark stop%d" % k, "stop", "mark after%d" % k, "globals", "thstate"]
         if s["stoptwice"]: L += ["mark stopagain%d" % k, "stop"]
     L += ["mark leak", "leakcheck"]
